@@ -47,6 +47,9 @@ type Fault struct {
 	// that the abandoned Get is the first read after a write - the harness's own complete Gets
 	// must not be what keeps a server-side read cache warm
 	Touch bool `json:"touch,omitempty"`
+	// get, Rep > 0: the same abandoned Get happens Rep more times before the server is
+	// looked at again (a long-lived server that has seen many clients go away)
+	Rep int `json:"rep,omitempty"`
 }
 
 // Case: a history is consumed batch by batch by a sequence of sessions, each
@@ -515,10 +518,21 @@ func (r *runner) getFault(fi int, f Fault) bool {
 	if cut > total {
 		cut = total
 	}
-	rs, err, hg := r.s.Get(&spb.GetRequest{NetworkInstance: &spb.GetRequest_All{All: &spb.Empty{}}, Aft: spb.AFTType_ALL}, cut+1)
-	if hg != nil {
-		l2.HangFinding(r.v, "C10", hg)
-		return false
+	var rs []*spb.GetResponse
+	var err error
+	for i := 0; i <= f.Rep; i++ {
+		var hg *drive.Hang
+		rs, err, hg = r.s.Get(&spb.GetRequest{NetworkInstance: &spb.GetRequest_All{All: &spb.Empty{}}, Aft: spb.AFTType_ALL}, cut+1)
+		if hg != nil {
+			if i > 0 {
+				hg.What = fmt.Sprintf("%s (abandoned Get number %d on this server)", hg.What, i+1)
+			}
+			l2.HangFinding(r.v, "C10", hg)
+			return false
+		}
+	}
+	if f.Rep > 0 {
+		r.v.Class("many-abandoned-gets")
 	}
 	if cut < total {
 		r.inside = true
@@ -735,6 +749,29 @@ func TestCampaign(t *testing.T) {
 				v := runCase(c)
 				col.Check(rt, ev.JSON(c), v)
 			}
+		})
+	})
+	t.Run("long-lived-server", func(t *testing.T) {
+		// one server sees K clients abandon a Get (K around powers of two), then everything
+		// must still work: limits on concurrent readers, per-client state and goroutines sit
+		// at such sizes
+		ks := []int{15, 16, 17, 31, 32, 33, 63, 64, 65, 127, 128, 129, 255, 256, 257}
+		if ev.Thorough() {
+			ks = append(ks, 511, 512, 513, 1023, 1024, 1025, 4097)
+		}
+		rapid.Check(t, func(rt *rapid.T) {
+			if rapid.IntRange(0, 1).Draw(rt, "run?") != 0 {
+				return
+			}
+			c := Case{H: drawHistory(rt), Batch: 5}
+			c.Faults = append(c.Faults, Fault{Kind: "modify", NBatches: 3, Cut: 5, Read: true, Mode: "halfclose"})
+			c.Faults = append(c.Faults, Fault{Kind: "get", GetCut: rapid.IntRange(0, 3).Draw(rt, "getcut"), Rep: ks[rapid.IntRange(0, len(ks)-1).Draw(rt, "k")] - 1, Touch: rapid.Bool().Draw(rt, "touch")})
+			if rapid.Bool().Draw(rt, "net") {
+				c.Net = true
+				c.Faults[1].Rep = min(c.Faults[1].Rep, 129)
+			}
+			v := runCase(c)
+			col.Check(rt, ev.JSON(c), v)
 		})
 	})
 	t.Run("fault-sequences", func(t *testing.T) {
